@@ -390,6 +390,9 @@ def irp_order(F, rep, T):
                     heap.append("call of %s" % f)
             if x.get("k") == "MethodCall":
                 heap.append("method call")
+            if x.get("k") == "Binop" and x.get("op") in ("==", "~=", "<", "<=", ">", ">="):
+                # on lists and blobs the comparison is a metamethod that walks the operands' contents - which are mutable
+                heap.append("comparison `%s` (its metamethod reads the contents of lists and blobs)" % x["op"])
         rep.ob("IRP-order", "%s|inlinable-reads-heap" % name, not heap,
                "IR::%s is inlined into its use when used once; its value `%s` %s" % (
                    name, text, "reads no mutable state" if not heap else
@@ -623,6 +626,9 @@ def float_nonfinite(F, rep, T):
 
 def literals(F, rep, T):
     exp = {"Int": "{num:1}", "Bool": "{num:1}", "Nil": "__NIL", "Float": "{num-debug:1}", "Str": '"{raw:1}"'}
+    # a string payload may be written with some characters as Lua escapes (line breaks): still the literal's own text
+    if "Str" in T.S and T.S["Str"]["value"] and luatpl.render(T.S["Str"]["value"]) == '"{raw-escaped:1}"':
+        exp["Str"] = '"{raw-escaped:1}"'
     for op, text in exp.items():
         s = T.S.get(op)
         got = luatpl.render(s["value"]) if s and s["value"] else None
